@@ -10,7 +10,7 @@ import argparse, hashlib, json, os, re, shutil, subprocess, sys, time
 
 ROOT = os.path.dirname(os.path.dirname(os.path.abspath(__file__)))
 REPO = os.environ.get("VERIF_REPO", "/repo")
-BUILD = os.path.join(ROOT, "build")
+BUILD = os.environ.get("VERIF_BUILD", os.path.join(ROOT, "build"))
 EVID = os.path.join(ROOT, "evidence")
 KNOWN = os.path.join(ROOT, "known_findings.txt")
 NCPU = os.cpu_count() or 8
@@ -121,6 +121,8 @@ class Check:
         os.makedirs(self.scratch, exist_ok=True)
         self.bindir = os.path.join(BUILD, "harness", pid)
         os.makedirs(self.bindir, exist_ok=True)
+        if not self.args.replay:
+            shutil.rmtree(os.path.join(EVID, "replay", pid), ignore_errors=True)
 
     # -- time ---------------------------------------------------------------
     def elapsed(self):
@@ -143,6 +145,28 @@ class Check:
             return compile_harness(src, os.path.join(self.bindir, name), variant, **kw)
         except HarnessError as e:
             self.harness_error(str(e))
+
+    # -- evidence helpers ---------------------------------------------------
+    def set_exploration(self, evaluations, distinct_nontrivial, rule, samples, exhaustive=None, **extra):
+        """Keys required for levels exploration / fault_enumeration (counts must be measured)."""
+        self.coverage.update({"evaluations": int(evaluations), "distinct_nontrivial": int(distinct_nontrivial),
+                              "rule": rule, "samples": list(samples)[:12]})
+        if exhaustive is not None:
+            self.coverage["exhaustive"] = bool(exhaustive)
+        self.coverage.update(extra)
+
+    def set_model_checking(self, states, transitions, traces_validated, samples, exhaustive=None, **extra):
+        """Keys required for level model_checking."""
+        self.coverage.update({"states": int(states), "transitions": int(transitions),
+                              "traces_validated_against_impl": int(traces_validated), "samples": list(samples)[:12]})
+        if exhaustive is not None:
+            self.coverage["exhaustive"] = bool(exhaustive)
+        self.coverage.update(extra)
+
+    def vacuity(self, cond, what):
+        """A guard that must hold for the exploration to be meaningful; failing it is a broken check (exit 2)."""
+        if not cond:
+            self.harness_error("vacuity guard failed: " + what)
 
     # -- verdicts -----------------------------------------------------------
     def violation(self, sig, detail, replay):
